@@ -3,9 +3,15 @@
 package main
 
 import (
+	"encoding/json"
+	"flag"
 	"fmt"
+	"os"
+	"os/exec"
+	"path/filepath"
 	"sort"
 	"strings"
+	"sync"
 
 	"0chain.net/core/util/orderbuffer"
 	"verifharness/vh"
@@ -18,8 +24,9 @@ type op struct {
 }
 
 type hist struct {
-	Max int  `json:"max"`
-	Ops []op `json:"ops"`
+	Max     int    `json:"max"`
+	Ops     []op   `json:"ops,omitempty"`
+	Threads [][]op `json:"threads,omitempty"` // concurrent use: one op list per goroutine
 }
 
 type item struct{ r, d int64 }
@@ -263,8 +270,133 @@ func key(h hist) string {
 	return b.String()
 }
 
+// runConcurrent runs one op list per goroutine on a shared buffer and checks what must hold for
+// every interleaving of whole operations: final buffer sorted and within capacity, every item handed
+// out or left over was added (no invention, no duplication), nothing panics.
+func runConcurrent(h hist) (fail string) {
+	b := orderbuffer.New(h.Max)
+	var wg sync.WaitGroup
+	var mu sync.Mutex
+	popped := map[item]int{}
+	panicked := false
+	for _, ops := range h.Threads {
+		wg.Add(1)
+		go func(ops []op) {
+			defer wg.Done()
+			defer func() {
+				if r := recover(); r != nil {
+					mu.Lock()
+					panicked = true
+					mu.Unlock()
+				}
+			}()
+			for _, o := range ops {
+				switch o.Kind {
+				case "add":
+					b.Add(o.R, o.D)
+				case "first":
+					b.First()
+				default:
+					if it, ok := b.Pop(); ok {
+						mu.Lock()
+						popped[item{it.Round, it.Data.(int64)}]++
+						mu.Unlock()
+					}
+				}
+			}
+		}(ops)
+	}
+	wg.Wait()
+	if panicked {
+		return "concurrent-panic"
+	}
+	added := map[item]int{}
+	for _, ops := range h.Threads {
+		for _, o := range ops {
+			if o.Kind == "add" {
+				added[item{o.R, o.D}]++
+			}
+		}
+	}
+	final := snapshot(b)
+	if len(final) > h.Max {
+		return "concurrent-over-capacity"
+	}
+	for i := 1; i < len(final); i++ {
+		if final[i-1].r > final[i].r {
+			return "concurrent-unsorted"
+		}
+	}
+	seen := map[item]int{}
+	for k, n := range popped {
+		seen[k] += n
+	}
+	for _, it := range final {
+		seen[it]++
+	}
+	for k, n := range seen {
+		if n > added[k] {
+			return "concurrent-invented-or-duplicated-entry"
+		}
+	}
+	return ""
+}
+
+// stressChild runs the concurrent histories of a batch file in this (child) process so that a Go
+// runtime fatal error (not recoverable) is observed by the parent as a crash of that batch.
+func stressChild(path string) {
+	data, err := os.ReadFile(path)
+	if err != nil {
+		panic(err)
+	}
+	var hs []hist
+	if err := json.Unmarshal(data, &hs); err != nil {
+		panic(err)
+	}
+	for i, h := range hs {
+		if f := runConcurrent(h); f != "" {
+			fmt.Printf("FAIL %d %s\n", i, f)
+		}
+	}
+	fmt.Println("DONE")
+}
+
+// stressBatch runs a batch in a child process; returns index->failure, and crashed=true if the child died.
+func stressBatch(dir string, hs []hist) (map[int]string, bool, string) {
+	path := filepath.Join(dir, "stress_batch.json")
+	data, _ := json.Marshal(hs)
+	if err := os.WriteFile(path, data, 0o644); err != nil {
+		panic(err)
+	}
+	cmd := exec.Command(os.Args[0], "-out", dir, "-stress-child", path)
+	out, err := cmd.CombinedOutput()
+	fails := map[int]string{}
+	done := false
+	for _, ln := range strings.Split(string(out), "\n") {
+		var i int
+		var f string
+		if n, _ := fmt.Sscanf(ln, "FAIL %d %s", &i, &f); n == 2 {
+			fails[i] = f
+		}
+		if ln == "DONE" {
+			done = true
+		}
+	}
+	tail := string(out)
+	if len(tail) > 400 {
+		tail = tail[:400]
+	}
+	return fails, err != nil || !done, tail
+}
+
+var stressChildFlag = flag.String("stress-child", "", "internal: run a batch of concurrent histories")
+
 func main() {
 	o := vh.ParseFlags()
+	if *stressChildFlag != "" {
+		stressChild(*stressChildFlag)
+		return
+	}
 	rep := vh.NewReport("orderbuffer", "C46", o)
 	rep.Rule = "random op sequences (70% add over 7 colliding rounds x 3 data values, first, pop; capacity 0-5, sometimes 6-20; " +
 		"1 in 5 histories uses extreme int64 rounds) + exhaustive short sequences; non-trivial = at least one add was inserted, " +
@@ -302,7 +434,22 @@ func main() {
 
 	var rh hist
 	if o.LoadReplay(&rh) {
-		handle(rh, true)
+		if len(rh.Threads) > 0 {
+			batch := make([]hist, 500)
+			for i := range batch {
+				batch[i] = rh
+			}
+			fails, crashed, tail := stressBatch(o.Out, batch)
+			for _, f := range fails {
+				rep.Violate("C46:"+f, "order buffer under concurrent use: "+f, rh)
+			}
+			if crashed {
+				rep.Violate("C46:concurrent-crash", "Go runtime fatal error under concurrent use: "+tail, rh)
+			}
+			rep.Case("replay", true, rh)
+		} else {
+			handle(rh, true)
+		}
 		files, err := cf.Write(o.Out, "C46")
 		if err != nil {
 			panic(err)
@@ -340,6 +487,41 @@ func main() {
 		}
 	}
 	rec(nil)
+	// concurrent use: distinct data per goroutine so that conservation is checkable
+	var batch []hist
+	for i := 0; i < o.N(300, 5000); i++ {
+		h := hist{Max: rnd.Range(1, 8)}
+		nt := rnd.Range(2, 6)
+		for t := 0; t < nt; t++ {
+			var ops []op
+			for k := 0; k < rnd.Range(20, 300); k++ {
+				switch x := rnd.Intn(10); {
+				case x < 6:
+					ops = append(ops, op{"add", int64(rnd.Intn(6)), int64(t*1000 + k)})
+				case x < 7:
+					ops = append(ops, op{Kind: "first"})
+				default:
+					ops = append(ops, op{Kind: "pop"})
+				}
+			}
+			h.Threads = append(h.Threads, ops)
+		}
+		rep.Count("concurrent-run")
+		batch = append(batch, h)
+	}
+	for lo := 0; lo < len(batch); lo += 50 {
+		hi := lo + 50
+		if hi > len(batch) {
+			hi = len(batch)
+		}
+		fails, crashed, tail := stressBatch(o.Out, batch[lo:hi])
+		for i, f := range fails {
+			rep.Violate("C46:"+f, "order buffer under concurrent use: "+f, batch[lo+i])
+		}
+		if crashed {
+			rep.Violate("C46:concurrent-crash", "Go runtime fatal error under concurrent use: "+tail, batch[lo])
+		}
+	}
 	rep.Note("exhaustive: all sequences over %d ops up to length %d, capacities 1-3, run on the implementation oracle; up to length %d also compared with the model", len(alpha), maxLen, coqLen)
 	files, err := cf.Write(o.Out, "C46")
 	if err != nil {
